@@ -73,6 +73,9 @@ func init() {
 	mutant(&Mutant{Name: "c05-foreignobject-attributes-copied-raw", Property: "C05", File: "svg/svg.go",
 		Old: "\t\t\tw.Write(xml.EscapeAttrVal(&attrByteBuffer, t.AttrVal))\n\t\t\ttb.Shift()\n\t\t\tcontinue\n", New: "\t\t\t_ = attrByteBuffer\n",
 		Rule: "R05.16", Construct: "svg.printTag/raw write"})
+	mutant(&Mutant{Name: "c05-peek-index-not-clamped", Property: "C05", File: "svg/buffer.go",
+		Old: "\t\t\t\tbuf = buf[:i+1]\n\t\t\t\tpos = i\n", New: "\t\t\t\tbuf = buf[:i+1]\n",
+		Rule: "R05.12", Construct: "index clamped"})
 	mutant(&Mutant{Name: "c05-drop-title", Property: "C05", File: "svg/svg.go",
 		Old: "\t\t\tif tag == Metadata {\n\t\t\t\tt.Data = nil\n", New: "\t\t\tif tag == Metadata {\n\t\t\t\tt.Data = nil\n\t\t\t} else if tag == Style {\n\t\t\t\tt.Data = nil\n",
 		Rule: "R05.3", Construct: "element dropped"})
